@@ -47,6 +47,7 @@ DEFAULT_CFG = {
     'directives': 0,        # percent of loops carrying a set_loop_options directive (C03)
     'def_extras': 25,       # percent of nested defs with a default-value expression / decorator
     'unusual': 0,           # weight of 'unusual literal' expression forms (C17)
+    'bare_defs': 0,         # percent of nested defs whose body is only a docstring / `...` / a docstring before the body (C17)
 }
 
 
@@ -914,6 +915,15 @@ class Gen(object):
       lines.append('%sdef %s(q):' % (sp, f))
     body = []
     nl = []
+    if cfg['bare_defs'] and self.chance(cfg['bare_defs']):
+      form = self.choice(['doc_only', 'ellipsis_only', 'doc_then_body', 'doc_then_body', 'const_only'])
+      self.note('bare_def:' + form)
+      if form != 'doc_then_body':
+        lines.append(sp + {'doc_only': '  """doc %s"""' % f, 'ellipsis_only': '  ...', 'const_only': '  17'}[form])
+        e2 = env.copy()
+        e2.bound[f] = 'fn'
+        return e2
+      body.append('%s  "doc %s"' % (sp, f))
     if cfg['nonlocals'] and not cfg['pure'] and self.chance(40):
       # nonlocal writes: only locals of the directly enclosing function that are definitely bound
       cands = sorted(n for n in captured if n in cfg['names'] and n not in env.readonly and n not in env.declared)
